@@ -45,7 +45,11 @@ Inductive case :=
 | CDec (repr : string) (impl : dec_result)
 | CMask (ct mask repr : string) (impl : dec_result)
 | CTrunc (ct : string) (n : nat) (repr : string) (impl : dec_result)
-| CForge (magic : string) (version : N) (ct repr : string) (impl : dec_result).
+| CForge (magic : string) (version : N) (ct repr : string) (impl : dec_result)
+(* corruption of the base64 TEXT: [repr] = text of the envelope of [ct] xor [tmask], byte by byte *)
+| CText (ct tmask repr : string) (impl : dec_result)
+(* the wrap side through the public API: [impl_repr] is the text eval.EncryptSecrets wrote for the ciphertext [ct] *)
+| CWrap (ct impl_repr : string) (impl_dec : dec_result).
 
 Definition std := ref_params (hx "65736378") 1.
 
@@ -59,7 +63,37 @@ Definition mismatch (c : case) : bool :=
                       || negb (dec_eqb d (decode_ct params r))
   | CForge mg v ct r d => negb (String.eqb r (encode_ct (ref_params mg v) ct))
                       || negb (dec_eqb d (decode_ct params r))
+  | CText ct tm r d => negb (String.eqb r (sxor (encode_ct std ct) tm)) || negb (dec_eqb d (decode_ct params r))
+  | CWrap ct r d => negb (String.eqb r (encode_ct params ct)) || negb (dec_eqb d (decode_ct params r))
   end.
+
+(* ---- the text level ---- *)
+Definition nonzero_bytes (m : string) : nat := length (filter (fun b => negb (b =? 0)) (bytes_of m)).
+
+Fixpoint first_nonzero (m r : string) : option ascii :=
+  match m, r with
+  | String x m', String y r' => if N_of_ascii x =? 0 then first_nonzero m' r' else Some y
+  | _, _ => None
+  end.
+
+Definition in_alphabet (c : ascii) : bool := match b64val c with Some _ => true | None => false end.
+
+(* what the theorems guarantee at text level (C11_text_one_char_replaced, C11_text_char_outside_alphabet): exactly ONE
+   character of the text replaced, the new and the old character not being the padding '=' *)
+Definition text_guaranteed (ct tm r : string) : bool :=
+  Nat.eqb (nonzero_bytes tm) 1
+  && match first_nonzero tm r, first_nonzero tm (encode_ct std ct) with
+     | Some new, Some old => negb (Ascii.eqb new pad) && negb (Ascii.eqb old pad)
+     | _, _ => false
+     end.
+
+(* the property's "altered by up to three flipped bits", read on the text *)
+Definition text_le3 (tm : string) : bool :=
+  let n := N.of_nat (length (mask_positions tm)) in (0 <? n) && (n <=? 3).
+
+(* known finding C11-text-flips: up to three flipped bits of the TEXT that touch several characters or make or break
+   a padding character can be accepted with another payload *)
+Definition text_known (ct tm r : string) : bool := text_le3 tm && negb (text_guaranteed ct tm r).
 
 (* corruption classes the property guarantees to be rejected *)
 Definition guaranteed_mask (ct m : string) : bool :=
@@ -82,11 +116,19 @@ Definition spec_fail (c : case) : bool :=
   | CMask ct m _ d => guaranteed_mask ct m && is_ok d
   | CTrunc ct n _ d => Nat.ltb n 12 && is_ok d
   | CForge mg v ct _ d => (negb (String.eqb mg (hx "65736378")) || negb (v =? 1)) && is_ok d
+  (* an altered text must never yield ANOTHER payload (the same payload is the same binary envelope: only bits the
+     decoder ignores changed); one replaced character outside the alphabet must be rejected outright *)
+  | CText ct tm r d =>
+      ((text_guaranteed ct tm r || text_le3 tm) && is_ok d && negb (dec_eqb d (DOk ct)))
+      || (text_guaranteed ct tm r
+          && match first_nonzero tm r with Some new => negb (in_alphabet new) | None => false end && is_ok d)
+  | CWrap ct r d => negb (dec_eqb d (DOk ct))
   end.
 
 Definition known (c : case) : bool :=
   match c with
   | CMask ct m _ _ => boundary_burst ct m
+  | CText ct tm r _ => text_known ct tm r
   | _ => false
   end.
 
@@ -102,6 +144,8 @@ Definition nontrivial (c : case) : bool :=
   | CMask _ m _ _ => negb (N.of_nat (length (mask_positions m)) =? 0)
   | CTrunc _ _ _ _ => true
   | CForge _ _ _ _ _ => true
+  | CText _ tm _ _ => negb (N.of_nat (length (mask_positions tm)) =? 0)
+  | CWrap _ _ _ => true
   end.
 
 (* ---- wire format ---- *)
@@ -137,6 +181,12 @@ Definition decode (x : sexp) : option case :=
       | Some mg, Some v, Some ct =>
           match atom_str r, decode_dec d with Some r, Some d => Some (CForge mg v ct r d) | _, _ => None end
       | _, _, _ => None end
+  | SList [Atom "text"; ct; m; r; d] =>
+      match atom_str ct, atom_str m, atom_str r, decode_dec d with
+      | Some ct, Some m, Some r, Some d => Some (CText ct m r d) | _, _, _, _ => None end
+  | SList [Atom "wrap"; ct; r; d] =>
+      match atom_str ct, atom_str r, decode_dec d with
+      | Some ct, Some r, Some d => Some (CWrap ct r d) | _, _, _ => None end
   | _ => None
   end.
 
@@ -145,21 +195,88 @@ Definition verdict (c : case) : N :=
 
 (* The same text taken through the other routes by which an envelope is unwrapped, as observed by the harness:
    - retained: the payload returned by the decoder is unchanged after two further, unrelated decodes;
-   - doc / eval: eval.DecryptSecrets over a document and the evaluator's fn::secret, each with a recording decrypter,
-     handed the decrypter exactly the payload the decoder returned, and nothing when the decoder rejected the text
-     ("an envelope that is rejected is never handed to the decrypter"). *)
-Record wcase := { w_core : case; w_retained : bool; w_doc : bool; w_eval : bool }.
+   - doc / doc2: eval.DecryptSecrets over a document that carries the text [occ] times (doc2: once, under a key spelled
+     with YAML escapes) with a recording decrypter: the class of the returned error, the number of payloads the
+     decrypter received for the text, whether each was exactly the decoder's payload;
+   - eval: the evaluator's fn::secret on the same document: the number of error diagnostics, and the same two
+     observations of the decrypter;
+   - back (wrap cases): DecryptSecrets over the document EncryptSecrets wrote hands the decrypter the chosen ciphertext.
+   The clause "rejected as invalid ciphertext and never handed to the decrypter" is judged HERE, on these observations:
+   a text the decoder rejects MUST produce the error that wraps "invalid ciphertext: <the decoder's error>" (document)
+   / exactly one diagnostic per occurrence (evaluation) and reach the decrypter never; a text it accepts must produce
+   no error / no diagnostic and reach the decrypter once per occurrence with exactly the decoder's payload.
+   [PSkip]: the text cannot be the value of a YAML scalar (not UTF-8) / the document did not load; counted in the
+   evidence. *)
+Inductive doc_err := ENone | EInvalid (kind : dec_result) | EOther.
 
-Definition path_fail (w : wcase) : bool := negb (w_retained w) || negb (w_doc w) || negb (w_eval w).
+Inductive pobs := PSkip | PObs (err : doc_err) (ndiag n : nat) (same : bool).
+
+Record wcase := { w_core : case; w_retained : bool; w_occ : nat; w_doc : pobs; w_doc2 : pobs; w_eval : pobs;
+                  w_back : bool }.
+
+Definition impl_of (c : case) : dec_result :=
+  match c with
+  | CRound _ _ d | CDec _ d | CMask _ _ _ d | CTrunc _ _ _ d | CForge _ _ _ _ d | CText _ _ _ d | CWrap _ _ d => d
+  end.
+
+Definition err_eqb (a b : dec_result) : bool :=
+  match a, b with DOk _, DOk _ => true | _, _ => dec_eqb a b end.
+
+(* DecryptSecrets: [occ] occurrences *)
+Definition doc_fail (d : dec_result) (occ : nat) (o : pobs) : bool :=
+  match o with
+  | PSkip => false
+  | PObs err _ n same =>
+      if is_ok d then negb (match err with ENone => true | _ => false end && Nat.eqb n occ && same)
+      else negb (match err with EInvalid k => err_eqb k d && negb (is_ok k) | _ => false end && Nat.eqb n 0)
+  end.
+
+(* evaluation: one diagnostic per rejected occurrence, none otherwise *)
+Definition eval_fail (d : dec_result) (occ : nat) (o : pobs) : bool :=
+  match o with
+  | PSkip => false
+  | PObs _ nd n same =>
+      if is_ok d then negb (Nat.eqb nd 0 && Nat.eqb n occ && same)
+      else negb (Nat.eqb nd occ && Nat.eqb n 0)
+  end.
+
+Definition path_fail (w : wcase) : bool :=
+  let d := impl_of (w_core w) in
+  negb (w_retained w) || doc_fail d (w_occ w) (w_doc w) || doc_fail d 1 (w_doc2 w) || eval_fail d (w_occ w) (w_eval w)
+  || negb (w_back w).
 
 Definition decode_flag (x : sexp) : option bool :=
   match x with Atom "same" | Atom "skip" => Some true | Atom "differs" => Some false | _ => None end.
 
+Definition decode_err (x : sexp) : option doc_err :=
+  match x with
+  | Atom "none" => Some ENone
+  | Atom "other" => Some EOther
+  | SList [Atom "ic"; k] => match decode_dec k with Some k => Some (EInvalid k) | None => Some EOther end
+  | _ => None
+  end.
+
+Definition decode_pobs (x : sexp) : option pobs :=
+  match x with
+  | Atom "skip" => Some PSkip
+  | SList [Atom "obs"; e; nd; n; sm] =>
+      match decode_err e, atom_nat nd, atom_nat n, decode_flag sm with
+      | Some e, Some nd, Some n, Some sm => Some (PObs e nd n sm)
+      | _, _, _, _ => None
+      end
+  | _ => None
+  end.
+
 Definition decode_w (x : sexp) : option wcase :=
   match x with
-  | SList [Atom "c11"; core; r; d; e] =>
-      match decode core, decode_flag r, decode_flag d, decode_flag e with
-      | Some c, Some r, Some d, Some e => Some {| w_core := c; w_retained := r; w_doc := d; w_eval := e |}
+  | SList [Atom "c11"; core; r; occ; d; d2; e; bk] =>
+      match decode core, decode_flag r, atom_nat occ, decode_pobs d with
+      | Some c, Some r, Some occ, Some d =>
+          match decode_pobs d2, decode_pobs e, decode_flag bk with
+          | Some d2, Some e, Some bk =>
+              Some {| w_core := c; w_retained := r; w_occ := occ; w_doc := d; w_doc2 := d2; w_eval := e; w_back := bk |}
+          | _, _, _ => None
+          end
       | _, _, _, _ => None
       end
   | _ => None
